@@ -289,7 +289,113 @@ func (p *Prog) FuncDecl(pkg, recv, name string) *ast.FuncDecl {
 			}
 		}
 	}
+	// a method turned into a package-level function that takes the former receiver as a parameter
+	if recv != "" {
+		for _, f := range pk.Syntax {
+			for _, d := range f.Decls {
+				if fd, ok := d.(*ast.FuncDecl); ok && fd.Name.Name == name && fd.Recv == nil && pseudoRecvIdent(fd, recv) != nil {
+					return fd
+				}
+			}
+		}
+	}
 	return nil
+}
+
+// typeExprName: the type name a parameter or receiver type expression denotes, pointers and type
+// arguments stripped ("" for anything but a plain, unqualified name).
+func typeExprName(t ast.Expr) string {
+	for {
+		switch x := t.(type) {
+		case *ast.StarExpr:
+			t = x.X
+		case *ast.ParenExpr:
+			t = x.X
+		case *ast.IndexExpr:
+			t = x.X
+		case *ast.IndexListExpr:
+			t = x.X
+		case *ast.Ident:
+			return x.Name
+		default:
+			return ""
+		}
+	}
+}
+
+// pseudoRecvIdent: for a package-level function, the one parameter of the named type (of the same
+// package) that plays the receiver's role; nil if there is none or several. With typ == "" the
+// type is not prescribed: the function must then have exactly one parameter whose type is a plain
+// name starting with a lower- or upper-case letter that is not a predeclared type.
+func pseudoRecvIdent(fd *ast.FuncDecl, typ string) *ast.Ident {
+	if fd.Recv != nil || fd.Type.Params == nil {
+		return nil
+	}
+	byType := map[string][]*ast.Ident{}
+	var order []string
+	for _, fl := range fd.Type.Params.List {
+		tn := typeExprName(fl.Type)
+		if tn == "" || (typ != "" && tn != typ) {
+			continue
+		}
+		if typ == "" {
+			if types.Universe.Lookup(tn) != nil {
+				continue
+			}
+			if _, isPtr := fl.Type.(*ast.StarExpr); !isPtr {
+				continue // a value of a named type: usually an option or a key, not the object operated on
+			}
+			// type parameters are not receiver types
+			isTP := false
+			if fd.Type.TypeParams != nil {
+				for _, tp := range fd.Type.TypeParams.List {
+					for _, nm := range tp.Names {
+						if nm.Name == tn {
+							isTP = true
+						}
+					}
+				}
+			}
+			if isTP {
+				continue
+			}
+		}
+		if _, seen := byType[tn]; !seen {
+			order = append(order, tn)
+		}
+		byType[tn] = append(byType[tn], fl.Names...)
+	}
+	// the one parameter that is alone in its type (`l *list, e, at *listElement` -> l)
+	// (several such parameters: by convention the former receiver comes first)
+	var cands []*ast.Ident
+	for _, tn := range order {
+		if len(byType[tn]) == 1 {
+			cands = append(cands, byType[tn][0])
+		}
+	}
+	switch {
+	case len(cands) == 1:
+		return cands[0]
+	case len(cands) > 1 && len(fd.Type.Params.List[0].Names) > 0 && fd.Type.Params.List[0].Names[0] == cands[0]:
+		return cands[0]
+	}
+	return nil
+}
+
+// pseudoRecvType: the type name of the parameter playing the receiver's role ("" if none).
+func pseudoRecvType(fd *ast.FuncDecl) string {
+	id := pseudoRecvIdent(fd, "")
+	if id == nil {
+		return ""
+	}
+	for _, fl := range fd.Type.Params.List {
+		for _, nm := range fl.Names {
+			if nm == id {
+				return typeExprName(fl.Type)
+			}
+		}
+	}
+	return ""
 }
 
 // Methods returns all method declarations of the named receiver type, sorted by name.
@@ -302,6 +408,9 @@ func (p *Prog) Methods(pkg, recv string) []*ast.FuncDecl {
 	for _, f := range pk.Syntax {
 		for _, d := range f.Decls {
 			if fd, ok := d.(*ast.FuncDecl); ok && fd.Recv != nil && recvTypeName(fd) == recv && !inlinedAway[fd] {
+				out = append(out, fd)
+			} else if ok && fd.Recv == nil && !fd.Name.IsExported() && !inlinedAway[fd] && fd.Body != nil && pseudoRecvIdent(fd, recv) != nil && pseudoRecvType(fd) == recv {
+				// an unexported package-level function operating on one object of the type: a method in all but syntax
 				out = append(out, fd)
 			}
 		}
@@ -414,4 +523,20 @@ func (p *Prog) SSAFunc(pkg, recv, name string) *ssa.Function {
 		}
 	}
 	return nil
+}
+
+// recvIdentOf: the identifier naming the object a function operates on - the receiver of a method,
+// or the receiver-role parameter of a package-level function (a former method). Never nil: an
+// anonymous or absent receiver yields a blank identifier that denotes no object.
+func recvIdentOf(fd *ast.FuncDecl) *ast.Ident {
+	if fd.Recv != nil {
+		if len(fd.Recv.List) > 0 && len(fd.Recv.List[0].Names) > 0 {
+			return fd.Recv.List[0].Names[0]
+		}
+		return &ast.Ident{Name: "_"}
+	}
+	if id := pseudoRecvIdent(fd, ""); id != nil {
+		return id
+	}
+	return &ast.Ident{Name: "_"}
 }
